@@ -228,55 +228,107 @@ def test_patch_oracle():
     from checks import c20
 
     K = c20.KINDS
-    clean = ("orig", "orig", "orig", "orig", "absent")
-    inside = ("other", "other", "other", "orig", "absent")
+    N = len(K)
 
-    def j(pre, op, **obs):
+    def st(**over):
+        """statuses of all watched attributes: pre-imported ones original, lazily imported modules absent, + overrides"""
+        d = {k: ("absent" if k in c20.LAZY_KINDS else "orig") for k in K}
+        for k, v in over.items():
+            d[k.replace("_", "-").replace("write-pandas", "write_pandas")] = v
+        return tuple(d[k] for k in K)
+
+    def same(*changed):
+        return tuple(k not in changed for k in K)
+
+    clean = st()
+    std = {"std_connect": "other", "std_write_pandas": "other"}
+    inside = st(from_import_connect="other", **std)
+
+    def j(pre, op, imp=None, **obs):
         obs.setdefault("before", clean)
-        return c20.judge_patch(pre, op, dict(obs, op=list(op)))
+        return c20.judge_patch(pre, op, dict(obs, op=list(op)), imp)
 
     start = c20.INITIAL
+    expect(start == ((), ("absent",) * len(c20.LAZY_KINDS), (), "start"), f"INITIAL {start}")
     ok_func = {"std-connect": "ok", "std-write_pandas": "ok", "from-import-connect": "ok"}
-    v = j(start, ("enter", "from-import-connect"), raised=None, status=inside, unchanged=(False,) * 5, func=ok_func)
+    v = j(start, ("enter", "from-import-connect"), raised=None, status=inside, unchanged=(False,) * N, func=ok_func)
     expect(failed(v) == [], f"good enter {failed(v)}")
-    v = j(start, ("enter", "from-import-connect"), raised=None, status=("other", "other", "orig", "orig", "absent"), unchanged=(False,) * 5, func=dict(ok_func, **{"from-import-connect": "not-fake"}))
+    v = j(start, ("enter", "from-import-connect"), raised=None, status=st(**std), unchanged=(False,) * N, func=dict(ok_func, **{"from-import-connect": "not-fake"}))
     expect(failed(v) == ["C20.inside"], "extra target not replaced must fail")
-    v = j(start, ("enter", "from-import-connect"), raised=None, status=inside, unchanged=(False,) * 5, func=dict(ok_func, **{"std-connect": "err:X"}))
+    v = j(start, ("enter", "from-import-connect"), raised=None, status=inside, unchanged=(False,) * N, func=dict(ok_func, **{"std-connect": "err:X"}))
     expect(failed(v) == ["C20.inside"], "fake that does not work must fail")
-    v = j(start, ("enter", "none"), raised="builtins.AssertionError", status=clean, unchanged=(True,) * 5)
+    v = j(start, ("enter", "none"), raised="builtins.AssertionError", status=clean, unchanged=(True,) * N)
     expect(failed(v) == ["C20.enter"], "valid target list refused must fail")
-    v = j(start, ("enter", "nonexistent-attr"), raised="builtins.AssertionError", status=clean, unchanged=(True,) * 5)
+    v = j(start, ("enter", "nonexistent-attr"), raised="builtins.AssertionError", status=clean, unchanged=(True,) * N)
     expect(failed(v) == [], "failed set-up that restores everything passes")
-    v = j(start, ("enter", "nonexistent-attr"), raised="builtins.AssertionError", status=("other", "other", "orig", "orig", "absent"), unchanged=(False, False, True, True, True))
+    v = j(start, ("enter", "nonexistent-attr"), raised="builtins.AssertionError", status=st(**std), unchanged=same("std-connect", "std-write_pandas"))
     expect(failed(v) == ["C20.restore_after_failed_setup"], "failed set-up that leaves the mocks fails")
-    v = j(start, ("enter", "nonexistent-attr"), raised=None, status=("other", "other", "orig", "orig", "absent"), unchanged=(False, False, True, True, True), func={"std-connect": "ok", "std-write_pandas": "ok"})
+    v = j(start, ("enter", "nonexistent-attr"), raised=None, status=st(**std), unchanged=same("std-connect", "std-write_pandas"), func={"std-connect": "ok", "std-write_pandas": "ok"})
     expect(failed(v) == [], "accepting a non-resolvable target is not demanded to fail")
-    opened = (("from-import-connect",), "absent", (), "-")
+    opened = (("from-import-connect",), start[1], (), "-")
     v = j(opened, ("exit", "normal"), before=inside, exit_raised=None, status=clean, conn="closed:snowflake.connector.errors.DatabaseError:250002", tl="from-import-connect")
     expect(failed(v) == [], "good exit")
-    v = j(opened, ("exit", "exception"), before=inside, exit_raised=None, status=("orig", "orig", "other", "orig", "absent"), conn="closed:x:1", tl="from-import-connect")
+    v = j(opened, ("exit", "exception"), before=inside, exit_raised=None, status=st(from_import_connect="other"), conn="closed:x:1", tl="from-import-connect")
     expect(failed(v) == ["C20.restore_after_exit"], "extra target not restored")
     v = j(opened, ("exit", "normal"), before=inside, exit_raised=None, status=clean, conn="open", tl="from-import-connect")
     expect(failed(v) == ["C20.closed"], "connection still open")
     v = j(opened, ("exit", "normal"), before=inside, exit_raised="builtins.KeyError", status=clean, conn="closed:x:1", tl="from-import-connect")
     expect(failed(v) == ["C20.exit_clean"], "exit raising")
-    v = j(opened, ("enter", "none"), before=inside, raised="builtins.AssertionError", status=inside, unchanged=(True,) * 5, outer_conn="open")
+    v = j(opened, ("enter", "none"), before=inside, raised="builtins.AssertionError", status=inside, unchanged=(True,) * N, outer_conn="open")
     expect(failed(v) == [], "nested refused without damage")
-    v = j(opened, ("enter", "none"), before=inside, raised=None, status=inside, unchanged=(False,) * 5, func={"std-connect": "ok"})
+    v = j(opened, ("enter", "none"), before=inside, raised=None, status=inside, unchanged=(False,) * N, func={"std-connect": "ok"})
     expect(failed(v) == ["C20.nested.refused"], "nested accepted")
-    v = j(opened, ("enter", "none"), before=inside, raised="builtins.AssertionError", status=clean, unchanged=(False, False, False, True, True), outer_conn="open")
+    v = j(opened, ("enter", "none"), before=inside, raised="builtins.AssertionError", status=clean, unchanged=same("std-connect", "std-write_pandas", "from-import-connect"), outer_conn="open")
     expect(failed(v) == ["C20.nested.no_damage"], "nested refusal that unpatches the outer block")
-    v = j(opened, ("enter", "none"), before=inside, raised="builtins.AssertionError", status=inside, unchanged=(True,) * 5, outer_conn="closed:x:1")
+    v = j(opened, ("enter", "none"), before=inside, raised="builtins.AssertionError", status=inside, unchanged=(True,) * N, outer_conn="closed:x:1")
     expect(failed(v) == ["C20.nested.no_damage"], "nested refusal that closes the outer instance")
+
+    # aliased from-imports in a module patch() has to import itself
+    la = {"unimported_aliased_connect": "other", "unimported_aliased_write_pandas": "other", "unimported_unaliased_beside_alias": "other"}
+    in_la = st(**std, **la)
+    f_la = {"std-connect": "ok", "std-write_pandas": "ok", "unimported-aliased-connect": "ok", "unimported-aliased-write_pandas": "ok"}
+    v = j(start, ("enter", "unimported-aliased"), raised=None, status=in_la, unchanged=(False,) * N, func=f_la)
+    expect(failed(v) == [] and any(k == "target=unimported-aliased-connect,imported-by=this-patch" for _c, k, _f, _d in v), f"first entry with aliased lazy targets {v}")
+    imp = {}
+    c20.note_imports(imp, ("enter", "unimported-aliased"), {"before": clean, "status": in_la})
+    expect(imp == {"unimported-aliased-connect": True, "unimported-aliased-write_pandas": True, "unimported-unaliased-beside-alias": False}, f"note_imports {imp}")
+    open_la = (("unimported-aliased",), in_la[c20.N_PRE :], (), "-")
+    after_ok = st(unimported_aliased_connect="orig", unimported_aliased_write_pandas="orig", unimported_unaliased_beside_alias="other")
+    v = j(open_la, ("exit", "normal"), imp, before=in_la, exit_raised=None, status=after_ok, conn="closed:x:1", tl="unimported-aliased")
+    expect(failed(v) == [], "listed aliased targets restored; the unlisted name of that module is not this block's target")
+    after_bad = st(unimported_aliased_connect="other", unimported_aliased_write_pandas="orig", unimported_unaliased_beside_alias="other")
+    v = j(open_la, ("exit", "normal"), imp, before=in_la, exit_raised=None, status=after_bad, conn="closed:x:1", tl="unimported-aliased")
+    bad = [(c, k) for c, k, f, _d in v if f]
+    expect(bad == [("C20.restore_after_exit", "target=unimported-aliased-connect,exit=normal")], f"aliased lazy target left as mock {bad}")
+    # second entry: a listed-then target has to be a working fake again; class names say who imported the module
+    closed_la = ((), after_ok[c20.N_PRE :], (), "exit")
+    v = j(closed_la, ("enter", "unimported-aliased"), imp, before=after_ok, raised=None, status=in_la, unchanged=(False,) * N, func=dict(f_la, **{"unimported-aliased-connect": "err:duckdb.ConnectionException"}))
+    bad = [(c, k) for c, k, f, _d in v if f]
+    expect(bad == [("C20.inside", "target=unimported-aliased-connect,imported-by=earlier-patch")], f"dead fake on re-entry {bad}")
+    f_all = dict(f_la, **{"unimported-unaliased-beside-alias": "err:duckdb.ConnectionException"})
+    v = j(closed_la, ("enter", "unimported-aliased+unaliased"), imp, before=after_ok, raised=None, status=in_la, unchanged=(False,) * N, func=f_all)
+    bad = [(c, k) for c, k, f, _d in v if f]
+    expect(bad == [("C20.inside", "target=unimported-module-attr:connect,imported-by=earlier-patch,not-listed-then")], f"unlisted sibling class {bad}")
+    # the *name* connect bound to write_pandas has to be restored to write_pandas
+    expect(c20.WATCHED[K.index("unimported2-write_pandas-named-connect")][1:] == ("c20h_lazy_alias2", "connect", "write_pandas"), "cross-named helper")
+    expect("import write_pandas as connect" in c20.HELPER_SRC["c20h_lazy_alias2"] and "connect as sf_connect" in c20.HELPER_SRC["c20h_lazy_alias"], "helper sources alias the targets")
+    # failed set-up: a listed attribute of a freshly imported module must not stay a mock; an unlisted one is not demanded here
+    v = j(start, ("enter", "unimported-aliased+nonexistent-attr"), raised="builtins.AssertionError", status=st(unimported_aliased_connect="orig", unimported_aliased_write_pandas="other", unimported_unaliased_beside_alias="other"), unchanged=(True,) * N)
+    expect(failed(v) == [], f"failed set-up, listed lazy target restored {failed(v)}")
+    v = j(start, ("enter", "unimported-aliased+nonexistent-attr"), raised="builtins.AssertionError", status=st(**la), unchanged=(True,) * N)
+    expect(failed(v) == ["C20.restore_after_failed_setup"], "failed set-up, listed lazy target left as mock")
+
     # state bookkeeping
-    s1 = c20.next_state(start, ("enter", "unimported-module"), {"raised": None, "status": ("other", "other", "orig", "orig", "other")})
-    expect(s1 == (("unimported-module",), "other", (), "-"), f"next_state enter {s1}")
-    s2 = c20.next_state(s1, ("exit", "normal"), {"status": ("orig", "orig", "orig", "orig", "other")})
-    expect(s2 == ((), "other", (), "exit"), f"next_state exit {s2}")
-    s3 = c20.next_state(start, ("enter", "malformed"), {"raised": "builtins.ValueError", "status": ("other", "other", "orig", "orig", "absent")})
-    expect(s3 == ((), "absent", ("std-connect", "std-write_pandas"), "failed-setup"), f"next_state leak {s3}")
+    s1 = c20.next_state(start, ("enter", "unimported-module"), {"raised": None, "status": st(unimported_module="other", **std)})
+    lz = lambda **o: st(**o)[c20.N_PRE :]  # noqa: E731
+    expect(s1 == (("unimported-module",), lz(unimported_module="other"), (), "-"), f"next_state enter {s1}")
+    s2 = c20.next_state(s1, ("exit", "normal"), {"status": st(unimported_module="other")})
+    expect(s2 == ((), lz(unimported_module="other"), (), "exit"), f"next_state exit {s2}")
+    s3 = c20.next_state(start, ("enter", "malformed"), {"raised": "builtins.ValueError", "status": st(**std)})
+    expect(s3 == ((), lz(), ("std-connect", "std-write_pandas"), "failed-setup"), f"next_state leak {s3}")
     expect(c20.listed_kinds("tuple:both-from-imports") == ["from-import-connect", "from-import-write_pandas"], "listed_kinds")
-    del K
+    expect(c20.listed_kinds("unimported-two-modules-same-alias") == ["unimported-aliased-connect", "unimported2-aliased-connect"], "listed_kinds two modules")
+    expect(set(c20.THOROUGH_ONLY) < set(c20.TARGET_LISTS) and "unimported-aliased" in c20.target_lists("quick"), "tier alphabets")
 
 
 def test_enumeration():
